@@ -411,6 +411,9 @@ type RunCfg struct {
 	// Shared, when set, makes consecutive calls use ONE engine object and ONE data context
 	// (facts are re-added before every call), as an application that keeps both around does.
 	Shared *SharedEnv
+	// Eng, when set, is used as is (no listeners are attached, MaxCycle is the engine's own):
+	// for executions that share one engine object across goroutines
+	Eng *engine.GruleEngine
 }
 
 // SharedEnv is an engine and a data context kept across calls.
@@ -576,15 +579,21 @@ func Run(kb *ast.KnowledgeBase, prog *Program, st State, cfg RunCfg) *RunResult 
 		eng = cfg.Shared.Eng
 		eng.Listeners = nil
 	}
-	eng.MaxCycle = cfg.MaxCycle
-	eng.ReturnErrOnFailedRuleEvaluation = cfg.RetErr
-	nl := cfg.Listeners
-	if nl == 0 {
-		nl = 1
-	}
-	rec.nListeners = nl
-	for i := 0; i < nl; i++ {
-		eng.Listeners = append(eng.Listeners, &listener{rec: rec, idx: i})
+	if cfg.Eng != nil {
+		// one engine object used by several goroutines at the same time: it is only read here
+		// (its MaxCycle is fixed by the caller, it has no listeners)
+		eng = cfg.Eng
+	} else {
+		eng.MaxCycle = cfg.MaxCycle
+		eng.ReturnErrOnFailedRuleEvaluation = cfg.RetErr
+		nl := cfg.Listeners
+		if nl == 0 {
+			nl = 1
+		}
+		rec.nListeners = nl
+		for i := 0; i < nl; i++ {
+			eng.Listeners = append(eng.Listeners, &listener{rec: rec, idx: i})
+		}
 	}
 	rec.limit = cfg.AbortAfter
 	if rec.limit == 0 {
